@@ -432,6 +432,28 @@ def handleKernel (line : String) : Option String :=
         let rt := match SaveLoad.load st with | some r' => (if SaveLoad.beq r' r && SaveLoad.beq r r' && r' == r then "1" else "0") | none => "none"
         some (" ".intercalate (st.map fun (p : String × SaveLoad.Val) => p.1 ++ "=" ++ showVal p.2) ++ " ; " ++ rt)
       | _, _, _, _, _ => some "ERR parse"
+    | ["family", fam], [args, flags] =>
+      match nats args, nats flags with
+      | some a, some f =>
+        some (match Families.permFamily fam a (f.map (· != 0)) with
+          | some d => s!"ok ; {d.name} ; {" | ".intercalate d.names} ; {showNats d.central} ; {showLL d.gens}"
+          | none => "none")
+      | _, _ => some "ERR parse"
+    | ["matfamily", fam], [args, flags] =>
+      match nats args, nats flags with
+      | some a, some f =>
+        some (match Families.matFamily fam a (f.map (· != 0)) with
+          | some d => s!"ok ; {d.name} ; {" | ".intercalate d.names} ; {showInts d.central} ; {" | ".intercalate (d.gens.map showInts)} ; {d.n} {d.modulo}"
+          | none => "none")
+      | _, _ => some "ERR parse"
+    | ["lookup", name, n, k], _ =>
+      match n.toNat? with
+      | some n =>
+        let kk := if k == "-" then none else k.toNat?
+        some (match Families.lookup name n kk with
+          | some d => s!"ok ; {d.name} ; {" | ".intercalate d.names} ; {showNats d.central} ; {showLL d.gens}"
+          | none => "none")
+      | none => some "ERR parse"
     | ["hash.mix"], [x] => (wordsOf x).map fun l => showInts (l.map fun w => Hash.key (Hash.evalMix Gen.mixSteps w))
     | ["hash.comb", seed], rows =>
       match seed.toInt?, rows.mapM wordsOf with
